@@ -52,13 +52,19 @@ def naCode (len : Nat) (signed : Bool) : Option Int :=
 /-- `1e-15` as Python reads it -/
 def relTol : Rat := rne ((1 : Rat) / 1000000000000000)
 
-/-- `decode_number` -/
-def decodeNumber (data off len : Nat) (signed : Bool) (res mn mx : Lit) : Except DecErr (Option Num) :=
+/-- Python `v + lit` (`number_int += offset`) -/
+def addLit (v : Num) (l : Lit) : Num :=
+  match v with
+  | .int z => if l.isFloat then .flt (rne (rne (z : Rat) + l.val)) else .int (z + l.m)
+  | .flt q => .flt (rne (q + rne l.val))
+
+/-- `decode_number` (value = raw × resolution + offset) -/
+def decodeNumber (data off len : Nat) (signed : Bool) (res mn mx ofs : Lit) : Except DecErr (Option Num) :=
   let n := Straight.decode_int data off len
   let z : Int := if signed then signExtend n len else (n : Int)
   if naCode len signed = some z then .ok none
   else
-    let v := mulLit z res
+    let v := addLit (mulLit z res) ofs
     let tol : Rat :=
       if res.isFloat then
         maxR (rne (absR res.val / 2)) (rne (rne (absR v.toRat) * relTol))
@@ -190,8 +196,14 @@ inductive EncErr where
   | malformed (why : String)
 deriving DecidableEq, Repr, Inhabited
 
-/-- `encode_number` -/
-def encodeNumber (v : PyVal) (len : Nat) (signed : Bool) (res : Lit) : Except EncErr Int :=
+/-- Python `v - lit` (`value - offset`) -/
+def subLit (v : Num) (l : Lit) : Num :=
+  match v with
+  | .int z => if l.isFloat then .flt (rne (rne (z : Rat) - l.val)) else .int (z - l.m)
+  | .flt q => .flt (rne (q - rne l.val))
+
+/-- `encode_number` (raw = round((value − offset) / resolution)) -/
+def encodeNumber (v : PyVal) (len : Nat) (signed : Bool) (res ofs : Lit) : Except EncErr Int :=
   match v with
   | .none =>
     .ok (if len ≤ 3 then ((2 ^ len : Nat) - 1 : Int)
@@ -202,7 +214,7 @@ def encodeNumber (v : PyVal) (len : Nat) (signed : Bool) (res : Lit) : Except En
     let x : Num := match v with | .int z => .int z | .flt q => .flt q | _ => .int 0
     if res.val = 0 then .error .type_   -- ZeroDivisionError (no such resolution in the database)
     else
-      let n := rhe (pyDiv x (litNum res))
+      let n := rhe (pyDiv (subLit x ofs) (litNum res))
       let lo : Int := if signed then -((2 ^ (len - 1) : Nat) : Int) else 0
       let hi : Int := if signed then ((2 ^ (len - 1) : Nat) : Int) - 2 else ((2 ^ len : Nat) : Int) - 2
       if n < lo ∨ n > hi then .error .range
